@@ -597,9 +597,9 @@ pub fn run(ctx: &Ctx, rep: &mut Report) {
         "exhaustive-PairVec",
         json!({"note": "every sequence over the alphabet up to max_depth, e.g.", "ops": ["PushNext", "PushNext", "PushNext", "Remove(1)", "PopFirst", "PopLast"]}),
     );
-    let cases = ctx.share(ctx.tier.pick(40_000, 8_000_000));
+    let cases = ctx.share(ctx.tier.pick(80_000, 8_000_000));
     engine::drive(ctx, rep, "random", case_strategy(150), cases, check_case);
-    let cases = ctx.share(ctx.tier.pick(6_000, 1_000_000));
+    let cases = ctx.share(ctx.tier.pick(12_000, 1_000_000));
     engine::drive(ctx, rep, "long-runs", long_run_strategy(), cases, check_case);
 }
 
